@@ -85,7 +85,7 @@ impl<'n> TryFromNode<'n> for Field {
             let (xml_name, namespace_ref) = split_type(ref_name);
             let rust_name = as_field_name(xml_name);
 
-            if ref_name.starts_with("xml") {
+            if namespace_ref == Some("xml") {
                 /* This is a reference to an XML type */
                 return Ok(Field {
                     xml_name: xml_name.to_string(),
